@@ -57,11 +57,37 @@ func (c *trigCtx) trigger(err error) {
 	}
 }
 
+// clusterRetry is the session's ClusterConfig.RetryPolicy: it does what the current case says the cluster
+// default is (and records the consultation in the case's log)
+type clusterRetry struct{ e *e2e }
+
+func (c *clusterRetry) cur() gocql.RetryPolicy {
+	c.e.mu.Lock()
+	defer c.e.mu.Unlock()
+	if c.e.cur == nil {
+		return nil
+	}
+	return c.e.cur.clusterRec
+}
+func (c *clusterRetry) Attempt(q gocql.RetryableQuery) bool {
+	if p := c.cur(); p != nil {
+		return p.Attempt(q)
+	}
+	return false
+}
+func (c *clusterRetry) GetRetryType(err error) gocql.RetryType {
+	if p := c.cur(); p != nil {
+		return p.GetRetryType(err)
+	}
+	return gocql.Rethrow
+}
+
 type e2eCase struct {
-	sc     *script
-	rc     *runCtx
-	cancel context.CancelFunc
-	tctx   *trigCtx // sequential cases: ended by the scripted nodes
+	clusterRec gocql.RetryPolicy // what the cluster default policy is for this case
+	sc         *script
+	rc         *runCtx
+	cancel     context.CancelFunc
+	tctx       *trigCtx // sequential cases: ended by the scripted nodes
 	// cancellation bookkeeping
 	stmt        string // the statement of this case
 	prepStage   bool   // context errors strike while the PREPARE is outstanding (statement unknown to the host)
@@ -377,6 +403,53 @@ func (e *e2e) handlePrepare(id int, nd *node.Node) node.Handler {
 	}
 }
 
+// clusterRecFor: the recording policy standing for the cluster default of this case (a default that
+// would retry, when the script does not say)
+func clusterRecFor(sc *script, rc *runCtx) gocql.RetryPolicy {
+	if sc.cluster != nil {
+		if sc.cluster.kind == 0 {
+			return nil
+		}
+		return rc.retryPolicyFor(*sc.cluster)
+	}
+	return rc.retryPolicyFor(polDesc{kind: 1, n: 3})
+}
+
+// setRetryOption applies the caller's choice to a statement made by the session
+func (sc *script) retryOption(rc *runCtx, set func(gocql.RetryPolicy)) {
+	if sc.cluster == nil {
+		set(rc.retryPolicy())
+		return
+	}
+	switch sc.rtOpt {
+	case 1:
+		set(rc.retryPolicyFor(sc.explicit))
+	case 2:
+		set(nil)
+	}
+}
+
+// chooseRetryOption turns a script's (effective) policy into a cluster default plus the caller's option
+func (h *harness) chooseRetryOption(sc *script, sessionMade bool) {
+	if sc.cluster != nil || !sessionMade {
+		return
+	}
+	r := h.o.Rng
+	other := polDesc{kind: 1, n: int(r.Pick(2, 3, 5))}
+	if r.Chance(30) {
+		other = polDesc{kind: 3, levels: []int64{6, 1}}
+	}
+	switch {
+	case sc.pol.kind == 0:
+		sc.cluster, sc.rtOpt = &other, 2 // retries switched off on the statement
+	case r.Chance(40):
+		c := sc.pol
+		sc.cluster, sc.rtOpt = &c, 0 // inherits the cluster default
+	default:
+		sc.cluster, sc.rtOpt, sc.explicit = &other, 1, sc.pol
+	}
+}
+
 func tagMsg(tag int64) string { return "c13-tag-" + strconv.FormatInt(tag, 10) }
 
 // server error codes without a special case in the executor or the built-in policies
@@ -440,6 +513,7 @@ func newE2E(h *harness, timeout time.Duration, defaultIdem bool) (*e2e, error) {
 	cfg.ConnectTimeout = 20 * time.Second
 	cfg.NumConns = 1
 	cfg.DefaultIdempotence = defaultIdem
+	cfg.RetryPolicy = &clusterRetry{e: e}
 	cfg.ReconnectionPolicy = &gocql.ConstantReconnectionPolicy{MaxRetries: 1, Interval: 10 * time.Millisecond}
 	cfg.Keyspace = "demo"
 	cfg.Consistency = gocql.One
@@ -547,6 +621,10 @@ func (e *e2e) runCaseAt(sc *script, kind string, prepStage bool) bool {
 	if sc.src.batch && len(sc.src.entries) == 0 {
 		sc.src.entries = []gocql.VerifC13Entry{{Set: true, Idempotent: true}} // an empty BATCH carries no case key
 	}
+	e.h.chooseRetryOption(sc, !sc.src.batch || sc.src.sessionBatch)
+	if !sc.src.batch && !sc.bindSet {
+		sc.useBind = e.h.o.Rng.Chance(25)
+	}
 	rc := newRunCtx(sc, 0)
 	ctx := newTrigCtx(context.WithValue(context.Background(), ctxKey{}, 1))
 	defer ctx.trigger(context.Canceled)
@@ -569,6 +647,7 @@ func (e *e2e) runCaseAt(sc *script, kind string, prepStage bool) bool {
 		}
 	}
 	rc.errSpec = cs.errSpec
+	cs.clusterRec = clusterRecFor(sc, rc)
 	e.mu.Lock()
 	e.cur = cs
 	any := e.hosts["10.0.0.1"]
@@ -598,7 +677,7 @@ func (e *e2e) runCaseAt(sc *script, kind string, prepStage bool) bool {
 		}
 		b = b.WithContext(ctx)
 		b.SetConsistency(gocql.Consistency(sc.cons0))
-		b.RetryPolicy(rc.retryPolicy())
+		sc.retryOption(rc, func(p gocql.RetryPolicy) { b.RetryPolicy(p) })
 		if sc.spk != 0 {
 			b.SpeculativeExecutionPolicy(&specPolicy{k: sc.spk, delay: 50 * time.Microsecond})
 		}
@@ -622,11 +701,18 @@ func (e *e2e) runCaseAt(sc *script, kind string, prepStage bool) bool {
 		}
 		rc.mu.Unlock()
 	} else {
-		q := e.sess.Query(cs.stmt, cs.key).WithContext(ctx).Consistency(gocql.Consistency(sc.cons0))
+		var q *gocql.Query
+		if sc.useBind {
+			key := cs.key
+			q = e.sess.Bind(cs.stmt, func(*gocql.QueryInfo) ([]interface{}, error) { return []interface{}{key}, nil })
+		} else {
+			q = e.sess.Query(cs.stmt, cs.key)
+		}
+		q = q.WithContext(ctx).Consistency(gocql.Consistency(sc.cons0))
 		if sc.src.override != nil {
 			q.Idempotent(*sc.src.override)
 		}
-		q.RetryPolicy(rc.retryPolicy())
+		sc.retryOption(rc, func(p gocql.RetryPolicy) { q.RetryPolicy(p) })
 		if sc.spk != 0 {
 			q.SetSpeculativeExecutionPolicy(&specPolicy{k: sc.spk, delay: 50 * time.Microsecond})
 		}
@@ -701,6 +787,7 @@ func (e *e2e) runFree(sc *script) {
 	}
 	delay := time.Duration(30+o.Rng.Intn(300)) * time.Microsecond
 	rc.errSpec = cs.errSpec
+	cs.clusterRec = clusterRecFor(sc, rc)
 	e.mu.Lock()
 	e.cur = cs
 	e.mu.Unlock()
@@ -876,6 +963,8 @@ func (e *e2e) runControlled(sc *script, sched []int, cancelAt int, kind string) 
 			cs.byTag[sc.dflt.o.tag] = sc.dflt.o
 		}
 		rc.errSpec = cs.errSpec
+		cs.clusterRec = clusterRecFor(sc, rc)
+		cs.clusterRec = clusterRecFor(sc, rc)
 		e.mu.Lock()
 		e.cur = cs
 		any := e.hosts["10.0.0.1"]
@@ -936,4 +1025,48 @@ func (g *gen) prepCancelScript() *script {
 	k := r.Intn(len(e2eOtherCodes))
 	sc.dflt = oc{&outSpec{kind: 6, a: int64(100 + k), tag: 500, wire: e2eOtherCodes[k]}, true}
 	return sc
+}
+
+// retryOptionScripts: the statement's retry-policy option in its three states on statements made by the
+// session (Session.Query, Session.Bind, Session.NewBatch) under a cluster default that retries; every
+// attempt fails, so the number of attempts shows which policy was in force.  Independent of the seed.
+func (e *e2e) runRetryOptions() {
+	g := e.h.g
+	for stmtKind := 0; stmtKind < 3; stmtKind++ {
+		for opt := 0; opt < 3; opt++ {
+			for ci, cl := range []polDesc{{kind: 1, n: 3}, {kind: 3, levels: []int64{6, 1}}} {
+				sc := &script{cons0: 4, a0: 0, spk: 0}
+				for _, id := range []int{1 + (stmtKind+opt+ci)%5, 1 + (stmtKind+opt+ci+1)%5, 1 + (stmtKind+opt+ci+2)%5, 1 + (stmtKind+opt+ci+3)%5} {
+					sc.hosts = append(sc.hosts, gocql.VerifC13Host{ID: id})
+				}
+				k := (stmtKind + opt) % len(e2eOtherCodes)
+				sc.dflt = oc{&outSpec{kind: 6, a: int64(100 + k), tag: 500, wire: e2eOtherCodes[k]}, true}
+				if ci == 1 {
+					sc.dflt = oc{mkOut(5, 0, 0, 500), true} // read timeouts: the downgrading default retries on the same host
+				}
+				c := cl
+				sc.cluster, sc.rtOpt, sc.explicit = &c, opt, polDesc{kind: 1, n: 1}
+				switch opt {
+				case 0:
+					sc.pol = cl
+				case 1:
+					sc.pol = sc.explicit
+				default:
+					sc.pol = polDesc{kind: 0}
+				}
+				f := false
+				switch stmtKind {
+				case 0:
+					sc.src, sc.bindSet = &idemSrc{clusterDefault: e.defaultIdem, override: &f}, true
+				case 1:
+					sc.src, sc.bindSet, sc.useBind = &idemSrc{clusterDefault: e.defaultIdem, override: &f}, true, true
+				default:
+					sc.batch = true
+					sc.src = &idemSrc{batch: true, sessionBatch: true, entries: []gocql.VerifC13Entry{{Set: true, Idempotent: true}, {Bind: true}}}
+				}
+				_ = g
+				e.runCase(sc, "seq-end-to-end-retry-option")
+			}
+		}
+	}
 }
